@@ -763,3 +763,8 @@ def run(chk, facts, tier, only=None):
         if only and only != rid:
             continue
         chk.run_rule(rid, desc, f)
+    if only is None:
+        import c17
+        import c18
+        chk.include(c17, "C17.R3", "C19.R6", facts)     # every referenced definition is chased, listed once and declared before use (JS/TS)
+        chk.include(c18, "C18.R4", "C19.R7", facts)     # the Rust generator lists and prints the nominalised environment only
